@@ -61,7 +61,7 @@ struct LoopCase {
     driver: String,
 }
 
-pub const DRIVERS: [&str; 6] = ["named-let", "callcc-backedge", "mutual-tail", "apply-tail", "do-nothing-but-builtins", "when-tail"];
+pub const DRIVERS: [&str; 8] = ["named-let", "callcc-backedge", "mutual-tail", "apply-tail", "do-nothing-but-builtins", "when-tail", "variadic-tail", "delay-force"];
 
 /// The loop that runs the garbage expression n times. The back edge differs: a tail call of a
 /// named-let procedure; the re-entry of a continuation captured once (no procedure is entered
@@ -96,6 +96,19 @@ fn loop_definition(driver: &str, garbage: &str) -> Vec<String> {
             format!("(define (%wspin i n) (when (< i n) {} (%wspin (+ i 1) n)))", garbage),
             "(define (%ispin i n) (if (< i n) (%ispin (+ i 1) n)))".to_string(),
             "(define (%garbage-loop n) (%wspin 0 n) (%ispin 0 n) 'done)".to_string(),
+        ],
+        // the looping procedure has a rest parameter (called with none, one and two optional arguments)
+        "variadic-tail" => vec![
+            format!(
+                "(define (%vspin i n . rest) (if (< i n) (begin {} (if (null? rest) (%vspin (+ i 1) n 'a) (if (null? (cdr rest)) (%vspin (+ i 1) n 'a 'b) (%vspin (+ i 1) n)))) 'done))",
+                garbage
+            ),
+            "(define (%garbage-loop n) (%vspin 0 n))".to_string(),
+        ],
+        // the loop is a chain of delay-force promises, which force must run in bounded space
+        "delay-force" => vec![
+            format!("(define (%dstep i n) (delay-force (if (< i n) (begin {} (%dstep (+ i 1) n)) (delay 'done))))", garbage),
+            "(define (%garbage-loop n) (force (%dstep 0 n)))".to_string(),
         ],
         "apply-tail" => vec![
             format!("(define (%spin i n) (if (< i n) (begin {} (apply %spin (+ i 1) (list n))) 'done))", garbage),
